@@ -168,6 +168,33 @@ fn produce(r: &mut Rng, out: &mut String, t: &str, tg: &[(u64, u64)], which: u64
             writeln!(out, "tmulti xor {} {} {}", kind, t, order).unwrap();
             "multi-xor-cancel"
         }
+        6 => {
+            // decoded from a portable stream that also lists partitions whose bitmap is EMPTY (under unused keys, in key order,
+            // written by the harness's own encoders): the decoders must not keep them
+            let mut parts: Vec<(u32, Vec<u8>)> = Vec::new();
+            let mut i = 0;
+            while i < all.len() {
+                let hi = all[i] >> 32;
+                let mut j = i;
+                while j < all.len() && all[j] >> 32 == hi {
+                    j += 1;
+                }
+                parts.push((hi as u32, super::stream::encode_set(all[i..j].iter().map(|&x| x as u32))));
+                i = j;
+            }
+            for _ in 0..r.range(1, 2) {
+                let jk = junk_key(tg, r.chance(1, 2)) as u32;
+                if !parts.iter().any(|p| p.0 == jk) {
+                    parts.push((jk, super::stream64::EMPTY32.to_vec()));
+                }
+            }
+            parts.sort_by_key(|p| p.0);
+            let view: Vec<(u32, &[u8])> = parts.iter().map(|p| (p.0, &p.1[..])).collect();
+            let (bytes, _) = super::stream64::frame(view.len() as u64, &view);
+            writeln!(out, "tnew {}", t).unwrap();
+            writeln!(out, "tdeser {} {} {}", *r.pick(&["chk", "unchk"]), t, super::c05::hex(&bytes)).unwrap();
+            "decoded-with-empty-partitions"
+        }
         _ => {
             // sorted append in batches, then a clone over a dirty destination
             writeln!(out, "tnew t6").unwrap();
@@ -184,10 +211,10 @@ fn produce(r: &mut Rng, out: &mut String, t: &str, tg: &[(u64, u64)], which: u64
 
 pub fn gen_case(r: &mut Rng, out: &mut String) {
     let tg = target(r);
-    let p1 = r.below(7);
-    let mut p2 = r.below(7);
+    let p1 = r.below(8);
+    let mut p2 = r.below(8);
     if p2 == p1 {
-        p2 = (p2 + 1) % 7;
+        p2 = (p2 + 1) % 8;
     }
     let n1 = produce(r, out, "t0", &tg, p1);
     let n2 = produce(r, out, "t1", &tg, p2);
